@@ -155,6 +155,43 @@ def perm_checks(ctx, stream, count, rng):
     ctx.streams[stream] = dict(cases=n, deviations=bad)
 
 
+def stv_boundary_checks(ctx, stream, count, rng):
+    """ballot-order independence of the transferable-vote evaluators on the boundary profiles of C03 (exact quota hits, several
+    candidates leaving in one count, shared lower ranks, shared ranks that exhaust): the places where the order in which the piles
+    are processed could matter"""
+    import props.c03 as c03
+    reg = evalreg.registry()
+    names = [n for n in reg if reg[n].get('family') == 'transferable_vote']
+    bad = n = 0
+    for c in c03.gen_boundary(rng, count, selector_only=True):
+        e = reg[rng.choice(names)]
+        prof = [[b, w] for b, w in c['votes'] if b]
+        if len(prof) < 2:
+            continue
+        seats = min(c['n'], len(evalreg.candidates_of('ranked', prof)))
+        base = evalreg.outcome(e, prof, seats)
+        ctx.evaluations += 1
+        ctx.dist['stream:' + stream] += 1
+        if base[0] == 'err' and base[1] == common.E['TIMEOUT']:
+            continue
+        for _k in range(3):
+            order = list(range(len(prof)))
+            rng.shuffle(order)
+            if order == sorted(order):
+                continue
+            r = evalreg.outcome(e, prof, seats, order=order)
+            n += 1
+            case = dict(kind='perm', evaluator=e['name'], profile=prof, n=seats, order=order)
+            nontriv(ctx, case, base)
+            if summary(r) != summary(base):
+                bad += 1
+                ctx.checker_false += 1
+                ctx.report(stream, case, str(r[1:]), str(base[1:]),
+                           '%s: outcome depends on the insertion order of the votes: %s vs %s' % (e['name'], summary(base), summary(r)),
+                           known_class=known_class)
+    ctx.streams[stream] = dict(cases=n, deviations=bad)
+
+
 def rename_checks(ctx, stream, count, rng):
     bad = n = 0
     for _ in range(count):
@@ -378,6 +415,7 @@ def explore(ctx, widen=1):
     for c in corpus():
         replay_case(ctx, c, 'corpus')
     perm_checks(ctx, 'perm', ctx.n(2000, 30000) * widen, rng)
+    stv_boundary_checks(ctx, 'stv-boundary-perm', ctx.n(500, 6000) * widen, rng)
     rename_checks(ctx, 'rename', ctx.n(1200, 15000) * widen, rng)
     symmetric_checks(ctx, 'symmetric', ctx.n(1200, 15000) * widen, rng)
     hashseed_checks(ctx, 'hashseed', ctx.n(500, 4000) * widen, rng, SEEDS_Q if ctx.tier == 'quick' else SEEDS_T)
